@@ -27,7 +27,7 @@ import (
 
 func TestMain(m *testing.M) { harness.Main(m) }
 
-const ruleText = "C11: a data graph over one of four static model groups (uint, string, int+string, string+string keys; has-one, has-many, belongs-to, many-to-many, polymorphic, self-referential, soft-deleting children, nested paths) is drawn with string keys from a hostile alphabet, NULL / partly NULL / dangling foreign keys, inserted table by table without association handling and mirrored in memory; one load is drawn (Preload single/nested/clause.Associations with inline conditions or scope functions, association Joins/InnerJoins with ON conditions, Association().Find) over a parent shape (struct, []T, []*T, duplicated parents, reload into the same struct); every association field of every loaded record is compared, as a multiset of full child rows, with a reference join over the mirror (typed equality per key part, NULL equals nothing, condition, soft-delete scope). non-trivial = at least 2 parents loaded, and for one loaded relation one parent with no and one with >=2 associated rows (to-one relations: one parent without and two with a row), and a hostile key among the tuples involved (string with '_' / 'nil' / '0' / non-ASCII, NULL part, or dangling foreign key); distinct = group + all rows + load"
+const ruleText = "C11: a data graph over one of four static model groups (uint, string, int+string, string+string keys; has-one, has-many, belongs-to, many-to-many, polymorphic, self-referential, soft-deleting children, nested paths) is drawn with string keys from a hostile alphabet, NULL / partly NULL / dangling foreign keys, inserted table by table without association handling and mirrored in memory; one load is drawn (Preload single/nested/clause.Associations with inline conditions or scope functions, association Joins/InnerJoins with ON conditions, Association().Find) (nested paths up to 4 segments, self-referential relations walked repeatedly; joined relations optionally restricted to a column subset by db.Select/db.Omit, several models declare a nullable column before their key) over a parent shape (struct, []T, []*T, duplicated parents, reload into the same struct); every association field of every loaded record is compared, as a multiset of full child rows, with a reference join over the mirror (typed equality per key part, NULL equals nothing, condition, soft-delete scope). non-trivial = at least 2 parents loaded, and for one loaded relation one parent with no and one with >=2 associated rows (to-one relations: one parent without and two with a row), and a hostile key among the tuples involved (string with '_' / 'nil' / '0' / non-ASCII, NULL part, or dangling foreign key); distinct = group + all rows + load"
 
 // ---------------------------------------------------------------- typed values
 
@@ -230,14 +230,28 @@ var deletedAtT = reflect.TypeOf(gorm.DeletedAt{})
 // rowString renders every scalar column of a row (keys, tag, foreign keys,
 // deleted flag): the identity the comparison uses, so that an attached child
 // must be a faithful copy of its stored row, not only carry the right key.
-func rowString(m *model, r row) string {
+func rowString(m *model, r row) string { return rowRender(m, r, nil) }
+
+// scalarFields lists the column fields of a model (everything but its relations).
+func scalarFields(m *model) []string {
+	var out []string
+	for i := 0; i < m.typ.NumField(); i++ {
+		if sf := m.typ.Field(i); m.rel(sf.Name) == nil {
+			out = append(out, sf.Name)
+		}
+	}
+	return out
+}
+
+// rowRender renders the columns for which keep is true (nil: all).
+func rowRender(m *model, r row, keep func(string) bool) string {
 	rv := reflect.Indirect(r)
 	var sb strings.Builder
 	sb.WriteString(m.name + "{")
 	first := true
 	for i := 0; i < m.typ.NumField(); i++ {
 		sf := m.typ.Field(i)
-		if m.rel(sf.Name) != nil {
+		if m.rel(sf.Name) != nil || (keep != nil && !keep(sf.Name)) {
 			continue
 		}
 		if !first {
@@ -316,6 +330,83 @@ type joinSpec struct {
 	Rel   string `json:"rel"`
 	Inner bool   `json:"inner,omitempty"`
 	On    *cond  `json:"on,omitempty"` // on-gte | on-struct
+	// column subset of the joined relation, handed over as db.Select(...) /
+	// db.Omit(...) on the conditions handle (field names, or column names when
+	// DBNames). "Tag" (NOT NULL) is always among the remaining columns, so a
+	// matching row is never all-NULL; the key and the leading columns may be missing.
+	Select  []string `json:"select,omitempty"`
+	Omit    []string `json:"omit,omitempty"`
+	DBNames bool     `json:"db_names,omitempty"`
+}
+
+func (j *joinSpec) subset() bool { return len(j.Select) > 0 || len(j.Omit) > 0 }
+
+// keeps returns the filter of the columns the join selects for its relation (nil: all).
+func (j *joinSpec) keeps() func(string) bool {
+	if !j.subset() {
+		return nil
+	}
+	in := func(l []string, n string) bool {
+		for _, x := range l {
+			if x == n {
+				return true
+			}
+		}
+		return false
+	}
+	return func(n string) bool {
+		if len(j.Select) > 0 && !in(j.Select, n) {
+			return false
+		}
+		return !in(j.Omit, n)
+	}
+}
+
+// decidable: whether "no related row" can be told from the loaded field: a nil
+// pointer, or - value-typed field - a blank key when the key is selected.
+func (j *joinSpec) decidable(owner *model, r *rel, tm *model) bool {
+	sf, _ := owner.typ.FieldByName(r.name)
+	if sf.Type.Kind() == reflect.Ptr {
+		return true
+	}
+	keep := j.keeps()
+	if keep == nil {
+		return true
+	}
+	for _, k := range tm.pk {
+		if !keep(k) {
+			return false
+		}
+	}
+	return true
+}
+
+// joinedActual renders what a joined relation field holds ("-": nothing).
+func joinedActual(f *family, owner *model, r *rel, j *joinSpec, rec reflect.Value) string {
+	tm := f.m(r.target)
+	fv := reflect.Indirect(rec).FieldByName(r.name)
+	if fv.Kind() == reflect.Ptr {
+		if fv.IsNil() {
+			return "-"
+		}
+		return rowRender(tm, fv, j.keeps())
+	}
+	if j.decidable(owner, r, tm) && tupleOf(fv.Addr(), tm.pk).allBlank() {
+		return "-"
+	}
+	return rowRender(tm, fv.Addr(), j.keeps())
+}
+
+// joinedWant renders the reference for one candidate (invalid row: no related row).
+func joinedWant(f *family, owner *model, r *rel, j *joinSpec, cand row) string {
+	tm := f.m(r.target)
+	if !cand.IsValid() {
+		if j.decidable(owner, r, tm) {
+			return "-"
+		}
+		return rowRender(tm, reflect.New(tm.typ), j.keeps())
+	}
+	return rowRender(tm, cand, j.keeps())
 }
 
 type load struct {
@@ -359,7 +450,8 @@ func (n *node) kid(name string) *node {
 // plan normalises the Preload calls the way callbacks/preload.go documents it
 // (parsePreloadMap): a name loads that relation with its own conditions plus the
 // conditions given to clause.Associations; "A.B" loads A (without conditions
-// unless A is named too) and B below it with the entry's conditions;
+// unless A is named too) and B below it with the entry's conditions, and so on
+// level by level for longer paths ("A.A.B": A, then A of those, then B);
 // clause.Associations loads every relation of the root model.
 func (l load) plan(root *model) *node {
 	top := &node{loaded: true, unscoped: l.Unscoped}
@@ -393,16 +485,12 @@ func (l load) plan(root *model) *node {
 		if !joined[parts[0]] {
 			n.loaded = true
 		}
-		if len(parts) == 1 {
-			if p.Cond != nil {
-				n.conds = append(n.conds, p.Cond)
-			}
-			continue
+		for _, part := range parts[1:] {
+			n = n.kid(part)
+			n.loaded = true
 		}
-		k := n.kid(parts[1])
-		k.loaded = true
 		if p.Cond != nil {
-			k.conds = append(k.conds, p.Cond)
+			n.conds = append(n.conds, p.Cond) // conditions belong to the last segment
 		}
 	}
 	for _, n := range top.kids {
@@ -650,6 +738,12 @@ func genGraph(rt *rapid.T, f *family, l load) *graph {
 				setVal(field(r, fn), pk[j])
 			}
 			field(r, "Tag").SetInt(int64(rapid.IntRange(0, 3).Draw(rt, "tag")))
+			if lf := reflect.Indirect(r).FieldByName("Label"); lf.IsValid() {
+				// the nullable first column: NULL in about half of the rows
+				if v := rapid.SampledFrom([]string{"", "", "x", "nil"}).Draw(rt, "label"); v != "" {
+					setVal(lf, val{Str: true, S: v})
+				}
+			}
 			if m.soft && rapid.IntRange(0, 9).Draw(rt, "deleted") < 3 {
 				field(r, "DeletedAt").Set(reflect.ValueOf(gorm.DeletedAt{Time: testdb.FixedNow, Valid: true}))
 			}
@@ -993,6 +1087,47 @@ func (c *checker) checkRecord(m *model, rec reflect.Value, n *node, joined map[s
 		tm := f.m(r.target)
 		got := attached(f, r, rec)
 		where := path + "." + r.name
+		if js := joined[r.name]; js != nil && js.subset() {
+			// joined with a column subset: present iff a related row exists, the
+			// selected columns carry that row's values, everything else stays zero
+			s := scope{}
+			if js.On != nil {
+				s.conds = []*cond{js.On}
+			}
+			cands := c.g.related(r, mirror, s)
+			var wants []string
+			for _, x := range cands {
+				wants = append(wants, joinedWant(f, m, r, js, x))
+			}
+			if len(cands) == 0 {
+				wants = []string{joinedWant(f, m, r, js, reflect.Value{})}
+			}
+			act := joinedActual(f, m, r, js, rec)
+			ok := false
+			for _, w := range wants {
+				ok = ok || w == act
+			}
+			if !ok {
+				return fmt.Errorf("%s (joined, columns %v%v) of %s: holds %s, reference join gives one of %v", where, js.Select, js.Omit, rowString(m, mirror), act, wants)
+			}
+			if fv := reflect.Indirect(rec).FieldByName(r.name); !(fv.Kind() == reflect.Ptr && fv.IsNil()) {
+				child := fv
+				if child.Kind() != reflect.Ptr {
+					child = child.Addr()
+				}
+				keep := js.keeps()
+				rest := func(n string) bool { return !keep(n) }
+				if g, z := rowRender(tm, child, rest), rowRender(tm, reflect.New(tm.typ), rest); g != z {
+					return fmt.Errorf("%s (joined, columns %v%v): columns that were not selected are filled: %s", where, js.Select, js.Omit, g)
+				}
+				for _, r2 := range tm.rels {
+					if x := attached(f, r2, child); len(x) != 0 {
+						return fmt.Errorf("%s.%s: relation was not requested but holds %v", where, r2.name, renderRows(f.m(r2.target), x))
+					}
+				}
+			}
+			continue
+		}
 		if fv := reflect.Indirect(rec).FieldByName(r.name); fv.Kind() == reflect.Struct && len(got) == 0 {
 			if g, z := rowString(tm, fv.Addr()), rowString(tm, reflect.New(tm.typ)); g != z {
 				return fmt.Errorf("%s of %s: no key but partly filled: %s", where, rowString(m, mirror), g)
@@ -1171,8 +1306,33 @@ func runQuery(d *testdb.DB, g *graph, l load, dest reflect.Value) error {
 	}
 	for _, j := range l.Joins {
 		var args []interface{}
-		if j.On != nil {
+		if j.On != nil || j.subset() {
 			on := d.Session(&gorm.Session{NewDB: true})
+			name := func(fn string) string {
+				if j.DBNames {
+					return colName(d.DB, fn)
+				}
+				return fn
+			}
+			if len(j.Select) > 0 {
+				cols := make([]string, len(j.Select))
+				for i, fn := range j.Select {
+					cols[i] = name(fn)
+				}
+				on = on.Select(cols)
+			}
+			if len(j.Omit) > 0 {
+				cols := make([]string, len(j.Omit))
+				for i, fn := range j.Omit {
+					cols[i] = name(fn)
+				}
+				on = on.Omit(cols...)
+			}
+			args = append(args, on)
+		}
+		if j.On != nil {
+			on := args[0].(*gorm.DB)
+			args = args[:0]
 			if j.On.Form == "on-struct" {
 				// struct conditions are qualified with the join alias (a map or a
 				// string condition is not: "ambiguous column" on self joins)
@@ -1232,7 +1392,8 @@ func referenceRows(g *graph, l load) []string {
 			continue // the root query's own soft-delete scope
 		}
 		combos := []string{tupleOf(p, root.pk).String()}
-		for _, j := range l.Joins {
+		for ji := range l.Joins {
+			j := &l.Joins[ji]
 			r := root.rel(j.Rel)
 			s := scope{}
 			if j.On != nil {
@@ -1242,10 +1403,14 @@ func referenceRows(g *graph, l load) []string {
 			var next []string
 			for _, c := range combos {
 				if len(cands) == 0 && !j.Inner {
-					next = append(next, c+"|-")
+					next = append(next, c+"|"+joinedWant(g.fam, root, r, j, reflect.Value{}))
 				}
 				for _, x := range cands {
-					next = append(next, c+"|"+tupleOf(x, g.fam.m(r.target).pk).String())
+					if j.subset() {
+						next = append(next, c+"|"+joinedWant(g.fam, root, r, j, x))
+					} else {
+						next = append(next, c+"|"+tupleOf(x, g.fam.m(r.target).pk).String())
+					}
 				}
 			}
 			combos = next
@@ -1264,8 +1429,13 @@ func resultRows(g *graph, l load, elems []reflect.Value) []string {
 	out := make([]string, 0, len(elems))
 	for _, e := range elems {
 		s := tupleOf(e, root.pk).String()
-		for _, j := range l.Joins {
+		for ji := range l.Joins {
+			j := &l.Joins[ji]
 			r := root.rel(j.Rel)
+			if j.subset() {
+				s += "|" + joinedActual(g.fam, root, r, j, e)
+				continue
+			}
 			got := attached(g.fam, r, e)
 			if len(got) == 0 {
 				s += "|-"
@@ -1554,6 +1724,33 @@ func classesOf(g *graph, l load) []string {
 		if j.On != nil {
 			set["cond:"+j.On.Form] = true
 		}
+		if j.subset() {
+			tm := f.m(r.target)
+			keep := j.keeps()
+			if len(j.Select) > 0 {
+				set["joins-columns:select"] = true
+			} else {
+				set["joins-columns:omit"] = true
+			}
+			hasKey := true
+			for _, k := range tm.pk {
+				hasKey = hasKey && keep(k)
+			}
+			if !hasKey {
+				set["joins-columns:without-key"] = true
+			}
+			for _, c := range scalarFields(tm) {
+				if keep(c) {
+					sf, _ := tm.typ.FieldByName(c)
+					if nullable(sf.Type) || sf.Type == deletedAtT {
+						set["joins-columns:first-column-nullable"] = true
+					}
+					break
+				}
+			}
+		} else if sf := f.m(r.target).typ.Field(0); sf.Name == "Label" {
+			set["joins:first-column-nullable"] = true
+		}
 	}
 	joined := map[string]bool{}
 	for _, j := range l.Joins {
@@ -1588,7 +1785,33 @@ func classesOf(g *graph, l load) []string {
 		}
 		r2 := kindOf(f.m(r.target), parts[1])
 		set["kind:"+r2.kind] = true
-		set["preload-nested:"+r.kind+">"+r2.kind] = true
+		if len(parts) == 2 {
+			set["preload-nested:"+r.kind+">"+r2.kind] = true
+		} else {
+			set[fmt.Sprintf("path:preload-depth-%d", len(parts))] = true
+			repeat, selfSteps := false, 0
+			cur := root
+			for i, part := range parts {
+				rr := cur.rel(part)
+				set["kind:"+rr.kind] = true
+				if rr.self {
+					selfSteps++
+				}
+				if i > 0 && part == parts[0] {
+					repeat = true
+				}
+				cur = f.m(rr.target)
+			}
+			if repeat {
+				set["preload-deep:first-segment-repeats"] = true
+			}
+			if selfSteps >= 2 {
+				set["preload-deep:self-referential-walked-twice"] = true
+			}
+			if p.Cond != nil {
+				set["preload-deep:with-condition"] = true
+			}
+		}
 		if joined[parts[0]] {
 			set["path:preload-under-joined"] = true
 		} else {
@@ -1600,6 +1823,9 @@ func classesOf(g *graph, l load) []string {
 		for _, r := range g.rows[m.name] {
 			if isDeleted(m, r) {
 				set["data:soft-deleted-row"] = true
+			}
+			if lf := reflect.Indirect(r).FieldByName("Label"); lf.IsValid() && lf.IsNil() {
+				set["data:null-first-column"] = true
 			}
 			for _, k := range m.fks {
 				t := tupleOf(r, k.fields)
@@ -1703,11 +1929,38 @@ func genLoad(rt *rapid.T, f *family) load {
 	}
 	for i := 0; i < np; i++ {
 		var p preloadSpec
-		switch rapid.SampledFrom([]string{"single", "single", "single", "nested", "nested", "assoc"}).Draw(rt, "preload.kind") {
+		switch rapid.SampledFrom([]string{"single", "single", "single", "nested", "nested", "deep", "deep", "assoc"}).Draw(rt, "preload.kind") {
 		case "single":
 			p.Path = rapid.SampledFrom(names).Draw(rt, "preload.rel")
 		case "nested":
 			p.Path = rapid.SampledFrom(f.nested[l.Root]).Draw(rt, "preload.path")
+		case "deep":
+			// a walk of 3 or 4 relations; a self-referential relation is often
+			// walked again ("Boss.Boss.Pets", "Team.Team.Team", "Boss.Team.Pets")
+			depth := rapid.IntRange(3, 4).Draw(rt, "preload.depth")
+			cur := root
+			var segs []string
+			for len(segs) < depth && len(cur.rels) > 0 {
+				var again []string
+				for _, r := range cur.rels {
+					if r.self {
+						again = append(again, r.name)
+					}
+				}
+				var name string
+				if len(segs) < depth-1 && len(again) > 0 && rapid.IntRange(0, 2).Draw(rt, "preload.walk-self") > 0 {
+					if n := len(segs); n > 0 && cur.rel(segs[n-1]) != nil && cur.rel(segs[n-1]).self && rapid.Bool().Draw(rt, "preload.repeat") {
+						name = segs[n-1]
+					} else {
+						name = rapid.SampledFrom(again).Draw(rt, "preload.self")
+					}
+				} else {
+					name = cur.rels[rapid.IntRange(0, len(cur.rels)-1).Draw(rt, "preload.step")].name
+				}
+				segs = append(segs, name)
+				cur = f.m(cur.rel(name).target)
+			}
+			p.Path = strings.Join(segs, ".")
 		default:
 			p.Path = clause.Associations
 		}
@@ -1728,9 +1981,44 @@ func genLoad(rt *rapid.T, f *family) load {
 	// which no documentation states either way - the combination is not generated.
 	underJoined := false
 	for _, p := range l.Preloads {
-		if parts := strings.Split(p.Path, "."); len(parts) == 2 && isJoined(l, parts[0]) {
+		if parts := strings.Split(p.Path, "."); len(parts) >= 2 && isJoined(l, parts[0]) {
 			underJoined = true
 		}
+	}
+	// column subsets of joined relations (db.Select / db.Omit on the conditions
+	// handle); not for a joined relation that carries nested preloads (those need
+	// the joined record's key columns)
+	for ji := range l.Joins {
+		j := &l.Joins[ji]
+		carrier := false
+		for _, p := range l.Preloads {
+			if strings.HasPrefix(p.Path, j.Rel+".") {
+				carrier = true
+			}
+		}
+		if carrier || rapid.IntRange(0, 1).Draw(rt, "join.subset") == 0 {
+			continue
+		}
+		var others []string
+		for _, c := range scalarFields(f.m(root.rel(j.Rel).target)) {
+			if c != "Tag" {
+				others = append(others, c)
+			}
+		}
+		pick := rapid.SliceOfNDistinct(rapid.SampledFrom(others), 1, len(others), func(s string) string { return s }).Draw(rt, "join.cols")
+		sort.Strings(pick)
+		if rapid.Bool().Draw(rt, "join.cols.omit") {
+			if len(pick) == len(others) {
+				pick = pick[1:] // an Omit of everything but Tag is fine, but keep some variety
+			}
+			if len(pick) == 0 {
+				continue
+			}
+			j.Omit = pick
+		} else {
+			j.Select = append(pick, "Tag")
+		}
+		j.DBNames = rapid.Bool().Draw(rt, "join.cols.db-names")
 	}
 	// listed finding assoc-inline-conds-concat: an inline condition on
 	// clause.Associations and another inline condition on a named relation are
